@@ -253,4 +253,49 @@ Section Affine.
     rewrite sumn_add, !sumn_sub, sumn_const, !sumn_mul_l. field. exact Hn.
   Qed.
 
+  (* ================================================================== *)
+  (* generalised problems in SAMPLE space (Laplacian eigenmaps:          *)
+  (* L v = lam D v): the answer set is transported by a permutation      *)
+  (* ================================================================== *)
+  Theorem geig_answer_perm n d p q (A B A' B' V : mat F) lam :
+    is_bij n p q -> meq n n A' (pact q A) -> meq n n B' (pact q B) ->
+    geig_answer n d A B V lam -> geig_answer n d A' B' (perm_rows q V) lam.
+  Proof.
+    intros Hb HA HB (Hev & Hon). pose proof Hb as (Hp & Hq & Hqp & Hpq).
+    assert (Hmul : forall (M M' : mat F), meq n n M' (pact q M) ->
+              forall i c, i < n -> mmul n M' (perm_rows q V) i c = mmul n M V (q i) c).
+    { intros M M' HM i c Hi. unfold mmul, perm_rows.
+      rewrite (sumn_ext n _ (fun t => M (q i) (q t) * V (q t) c))
+        by (intros t Ht; rewrite (HM i t Hi Ht); reflexivity).
+      exact (sumn_perm n p q (fun t => M (q i) t * V t c) Hb). }
+    split.
+    - intros i c Hi Hc. rewrite (Hmul A A' HA i c Hi), (Hmul B B' HB i c Hi).
+      apply Hev; [apply Hq; exact Hi|exact Hc].
+    - intros c c' Hc Hc'. rewrite <- (Hon c c' Hc Hc').
+      unfold mmul at 1. unfold mtrans at 1.
+      rewrite (sumn_ext n _ (fun t => V (q t) c * mmul n B V (q t) c')).
+      + exact (sumn_perm n p q (fun t => V t c * mmul n B V t c') Hb).
+      + intros t Ht. unfold perm_rows at 1. rewrite (Hmul B B' HB t c' Ht). reflexivity.
+  Qed.
+
+  (* Laplacian eigenmaps end to end: compute_laplacian on the relabelled lists, the solver's
+     answers for (L, diag D), the embedding = the eigenvectors: rows permuted *)
+  Theorem laplacian_eigenmaps_perm n k d p q nb (h h' : nat -> nat -> F) V lam :
+    0 < n -> is_bij n p q -> uniform_rows n k nb -> rows_in_range n nb ->
+    (forall a b, a < n -> b < n -> h' (p a) (p b) = h a b) ->
+    geig_answer n d (lap_L n nb h) (mdiag (lap_D n nb h)) V lam ->
+    geig_answer n d (lap_L n (pnbrs p q nb) h') (mdiag (lap_D n (pnbrs p q nb) h')) (perm_rows q V) lam /\
+    rows_permuted n d q V (perm_rows q V).
+  Proof.
+    intros Hn Hb Hu Hr Hh Ha. split; [|intros i c _ _; reflexivity].
+    eapply geig_answer_perm; [exact Hb| | |exact Ha].
+    - eapply lap_L_perm; eauto.
+    - intros i j Hi Hj. unfold mdiag, pact.
+      rewrite (lap_D_perm n k p q nb h h' Hn Hb Hu Hr Hh i Hi). unfold pvec.
+      destruct (Nat.eqb i j) eqn:E1; destruct (Nat.eqb (q i) (q j)) eqn:E2; try reflexivity.
+      + apply Nat.eqb_eq in E1. apply Nat.eqb_neq in E2. subst j. contradiction.
+      + apply Nat.eqb_neq in E1. apply Nat.eqb_eq in E2. exfalso. apply E1.
+        eapply is_bij_inj; eauto.
+  Qed.
+
 End Affine.
